@@ -461,5 +461,18 @@ Definition run_case (base_path : bytes) (homes : list (bytes * bytes))
           end]
   end.
 
+(* compact form used by the harness: everything is derived from the scratch root T
+   (base_path = T/1/2/3/srv/pub/ ; user database: "" -> T/1/2/3/srv, joe -> <served>/a,
+   ann -> T/1/2/3/srv/secret/, bob -> <served>) *)
+Definition srv_suffix : bytes := [47;49;47;50;47;51;47;115;114;118].          (* /1/2/3/srv *)
+Definition pub_suffix : bytes := [47;112;117;98].                              (* /pub *)
+Definition std_homes (T : bytes) : list (bytes * bytes) :=
+  [([], T ++ srv_suffix);
+   ([106;111;101], T ++ srv_suffix ++ pub_suffix ++ [47;97]);
+   ([97;110;110], T ++ srv_suffix ++ [47;115;101;99;114;101;116;47]);
+   ([98;111;98], T ++ srv_suffix ++ pub_suffix)].
+Definition run_case_T (T : bytes) (fixed vfs : bool) (rcp client_path : bytes) : obs :=
+  run_case (T ++ srv_suffix ++ pub_suffix ++ [SLASH]) (std_homes T) fixed vfs rcp client_path.
+
 Definition run_jail (allowed : option (list (N * list bytes))) (url : N * list bytes) : obs :=
   obool (pre_open_hook allowed url).
